@@ -281,7 +281,12 @@ let exec (toks : string list) =
      | None -> raise Bad
      | Some path ->
        let content = (match rest with [] -> [] | h :: _ -> (match ostr_of_hex h with Some s -> s | None -> [])) in
-       let ent = (match kind with "file" -> FFile content | "dir" -> FDir | "missing" -> FMissing | _ -> raise Bad) in
+       (* a symbolic link reads as its target does at the time the link is made (the scenarios do not change targets later) *)
+       let ent = (match kind with "file" -> FFile content | "dir" -> FDir | "missing" -> FMissing
+                                | "link" -> (match rest with
+                                    | h :: _ -> (match path_of_hex h with Some t -> fs_lookup (!w).w_fs t | None -> raise Bad)
+                                    | [] -> raise Bad)
+                                | _ -> raise Bad) in
        let ww = !w in
        (* creating a file creates its parent directories *)
        let fs = fs_set ww.w_fs path ent in
